@@ -344,3 +344,62 @@ pub fn first_line(s: &str) -> String {
 thread_local! {
     pub static DUMMY: Env = dummy_env();
 }
+
+// ---------------------------------------------------------------------------------------------
+// layout helpers (R3 <-> simplicity)
+
+use crate::refmodel::{shape_node, Shape, ShapeNode, BV};
+use simplicity::types::Final;
+
+pub fn final_of(s: Shape, memo: &mut HashMap<Shape, Arc<Final>>) -> Arc<Final> {
+    if let Some(f) = memo.get(&s) {
+        return f.clone();
+    }
+    let f = match shape_node(s) {
+        ShapeNode::Unit => Final::unit(),
+        ShapeNode::Sum(a, b) => {
+            let (fa, fb) = (final_of(a, memo), final_of(b, memo));
+            Final::sum(fa, fb)
+        }
+        ShapeNode::Prod(a, b) => {
+            let (fa, fb) = (final_of(a, memo), final_of(b, memo));
+            Final::product(fa, fb)
+        }
+    };
+    memo.insert(s, f.clone());
+    f
+}
+
+/// Does the simplicity value have exactly the structure of the reference value tree?
+pub fn bv_matches(bv: &BV, v: simplicity::ValueRef) -> bool {
+    match bv {
+        BV::Unit => v.is_unit(),
+        BV::L(x) => v.as_left().map_or(false, |l| bv_matches(x, l)),
+        BV::R(x) => v.as_right().map_or(false, |r| bv_matches(x, r)),
+        BV::P(a, b) => v.as_product().map_or(false, |(l, r)| bv_matches(a, l) && bv_matches(b, r)),
+    }
+}
+
+pub fn env_with(lock_time: u32, sequence: u32) -> Env {
+    simfony::dummy_env::dummy_with(elements::LockTime::from_consensus(lock_time), elements::Sequence::from_consensus(sequence), false)
+}
+
+/// satisfy_with_env(Some(env)) -> redeem CMR check -> encode -> decode -> exec under `env`.
+pub fn run_pruned(built: &Built, witness: WitnessValues, env: &Env) -> RunOutcome {
+    let sat = match guard(|| built.compiled.satisfy_with_env(witness, Some(env))) {
+        Ok(Ok(s)) => s,
+        Ok(Err(e)) => return RunOutcome::SatisfyErr(e),
+        Err(p) => return RunOutcome::SatisfyPanic(p),
+    };
+    if sat.redeem().cmr() != built.cmr {
+        return RunOutcome::CmrMismatch;
+    }
+    if !redeem_witnesses_well_typed(sat.redeem()) {
+        return RunOutcome::IllTypedWitness;
+    }
+    let (p, w) = match guard(|| sat.redeem().encode_to_vec()) {
+        Ok(x) => x,
+        Err(p) => return RunOutcome::ExecPanic(format!("encode: {p}")),
+    };
+    decode_and_exec(p, w, built.cmr, env)
+}
